@@ -14,7 +14,7 @@ EXPLANATION = (
     "Err(KeyParsing)} x cmp(timestamp, now+SHIFT) {Less,Equal,Greater}; SHIFT = 600_000_000 us; validate_empty's table over"
     " bool^2; (R3) signature verification pairs each key with its own signature over the entry's canonical bytes and "
     'propagates every result; (R4) the canonical encoding reads every field; (R5) the verification-skipping Local origin is'
-    ' constructed only in local insert/delete; (R6) a failed validation continues the value loop. NOT decided: '
+    ' constructed only in local insert/delete; (R6) a failed validation continues the value loop. (R7) the gossip receive loop evaluated on scripts of broadcast entries: each reaches the replica through exactly one SyncHandle::insert_remote for the loop document, a rejected entry does not end the loop. NOT decided: '
     'unforgeability (ed25519 trusted), clock arithmetic.'
 )
 ASSUMPTIONS = [
@@ -534,6 +534,14 @@ def r6(ctx):
     ctx.floor("C03.R6", 2)
 
 
+def r7(ctx):
+    """the third ingress, gossip: a broadcast entry reaches the replica only through SyncHandle::insert_remote (validated by
+    R1/R2 like a single remote insert), and a rejected one does not keep later ones out"""
+    from . import gossipin
+    gossipin.check(ctx, "C03.R7")
+    ctx.floor("C03.R7", 3)
+
+
 def run(ctx):
     ctx.run_rule("C03.R1", r1)
     ctx.run_rule("C03.R2", r2)
@@ -541,3 +549,4 @@ def run(ctx):
     ctx.run_rule("C03.R4", r4)
     ctx.run_rule("C03.R5", r5)
     ctx.run_rule("C03.R6", r6)
+    ctx.run_rule("C03.R7", r7)
